@@ -1021,9 +1021,14 @@ def r18(k: Kit) -> None:
     rep.floor('C12.R18', 'returns of the block reader', len(rets), 1)
     for r in rets:
         v = r.ast.value
-        ok = isinstance(v, ast.Tuple) and len(v.elts) == 2 and \
-            is_call(v.elts[0], 'len') and v.elts[0].args and \
-            dotted(v.elts[0].args[0]) == dotted(v.elts[1]) is not None
+        ok = False
+        if isinstance(v, ast.Tuple) and len(v.elts) == 2 and \
+                dotted(v.elts[1]) is not None:
+            leaves, free = expr_sources(g, k.rd(rt), r.id, v.elts[0])
+            cands = [v.elts[0]] + list(leaves)
+            ok = any(is_call(c, 'len') and c.args and
+                     dotted(c.args[0]) == dotted(v.elts[1]) for c in cands) \
+                and not any('size' in names_read(c) for c in cands)
         rep.check(ok, 'C12.R18', key(rt, 'count is what was read'),
                   'return len(data), data',
                   f'`{norm(r.ast)}`: a block can be reported complete with '
@@ -1048,6 +1053,64 @@ def r18(k: Kit) -> None:
                   'of file - a backend that returns fewer bytes than asked '
                   '(network file system, user subclass) makes version 6 '
                   'clients stop reading early', k.loc(pr, n))
+
+
+def r20(k: Kit) -> None:
+    """The block reader is never built with a block size of zero."""
+    rep = k.rep
+    rep.rule('C12.R20', 'SFTPClientFile: every _SFTPFileReader it builds '
+             'gets a block size that cannot be 0 when parallel reads were '
+             'disabled (block_size None / 0 makes read_len 0): the argument '
+             'is "self.read_len or <fallback>" or the construction is '
+             'reached only on the true edge of a test of self.read_len - '
+             'zero-length READs are answered EOF, so read_parallel() would '
+             'return nothing and report nothing')
+    n = 0
+    for q in ('sftp.SFTPClientFile.read', 'sftp.SFTPClientFile.read_parallel'):
+        fi = k.func(q)
+        g = k.cfg(fi)
+        for nd, c in k.calls_named(fi, '_SFTPFileReader'):
+            n += 1
+            a0 = c.args[0] if c.args else None
+            ok = isinstance(a0, ast.BoolOp) and isinstance(a0.op, ast.Or) \
+                and dotted(a0.values[0]) == 'self.read_len' and \
+                len(a0.values) > 1
+            if not ok and a0 is not None and dotted(a0) == 'self.read_len':
+                ok = g.guarded_by(nd.id, lambda x: True if x.kind == 'atom'
+                                  and dotted(x.ast) == 'self.read_len'
+                                  else None) is None
+            rep.check(ok, 'C12.R20', key(fi, 'block size is never zero'),
+                      'self.read_len or <fallback>, or guarded by read_len',
+                      f'`_SFTPFileReader({norm(a0) if a0 is not None else ""}, '
+                      '...)` can be built with block size 0: on a file '
+                      'opened with block_size=0, read_parallel() of 100000 '
+                      'bytes yields nothing and raises nothing',
+                      k.loc(fi, nd))
+    rep.floor('C12.R20', 'block reader constructions', n, 2)
+
+
+def r21(k: Kit) -> None:
+    """The copy-data request states the length that was announced."""
+    rep = k.rep
+    rep.rule('C12.R21', '_SFTPFileCopier.run, copy-data branch: the length '
+             'argument of remote_copy() is the length of the range being '
+             'copied, unconditionally - 0 means "to end of file" on the '
+             'wire, which turns off the server\'s early-EOF error (C12.R17) '
+             'and this branch has no byte count of its own')
+    fi = k.func('sftp._SFTPFileCopier.run')
+    g = k.cfg(fi)
+    rd = k.rd(fi)
+    calls = [(nd, c) for nd, c in k.calls_named(fi, 'remote_copy')]
+    rep.floor('C12.R21', 'copy-data requests', len(calls), 1)
+    for nd, c in calls:
+        a = c.args[3] if len(c.args) > 3 else None
+        ok = isinstance(a, ast.Name) and a.id == 'length'
+        rep.check(ok, 'C12.R21', key(fi, 'announced length is requested'),
+                  'remote_copy(src, dst, offset, length, offset)',
+                  f'the length argument is `{norm(a) if a is not None else "?"}`'
+                  ': a non-sparse remote copy of a source that shrank after '
+                  'the stat is answered OK and reported as success with a '
+                  'short destination', k.loc(fi, nd))
 
 
 def r19(k: Kit) -> None:
@@ -1107,6 +1170,8 @@ def run(idx, rep, tier):
     r17(k)
     r18(k)
     r19(k)
+    r20(k)
+    r21(k)
     rep.rule('C12.R15', 'SFTPClientFile.read: the size computed for a read '
              'to end of file is clamped at 0 (position past the end reads '
              'as empty): a negative size reaches UInt32() as OverflowError')
@@ -1131,3 +1196,6 @@ def run(idx, rep, tier):
                   'the file: read() raises OverflowError (cannot convert '
                   'negative int to unsigned) instead of returning an empty '
                   'result', k.loc(_fi, _n))
+    from .shared import share
+    from .c14 import r7 as _c14r7
+    share(k, 'C12.R22', 'a WRITE answered with anything but a status is a failure (= C14.R7): the reply type is checked for status-only requests too, so a dropped block is not counted as written', _c14r7, keep=lambda key: 'reply type' in key)
